@@ -21,6 +21,9 @@ fn dispatch(prop: &str, ctx: &Ctx, replay: Option<&[String]>) -> bool {
   }
   match prop {
     "C01" => p!(c01),
+    "C02" => p!(c02),
+    "C03" => p!(c03),
+    "C04" => p!(c04),
     "C10" => p!(c10),
     _ => false,
   }
